@@ -26,8 +26,10 @@
      C03_complete_abnf_no_filter - the headline itself, with no spelling relation in the statement, for strings without "?": every string the ABNF
                               derives that contains no "?" compiles in every environment whose integer range contains the integers it mentions
                               (Proofs/AbnfSpell.v: ABNF derivations -> token-grammar derivations + spellings, continuation-passing through the bracket structure);
-   What remains unproved: the same inversion for filter selectors (logical-expr and below: the link from ABNF derivations to spellings there; the lexical
-   rules they use are covered by C03_abnf_lexical_rules, the spellings by C03_complete_spelled, the converse inclusion by C04_sound).  The check renders every generated valid query in every
+     C03_complete_abnf_no_call - the same with filter selectors: logical expressions, comparisons, parentheses, negation, existence tests, nested
+                              queries and nested filters - every string of the grammar that makes no function call compiles (Proofs/AbnfSpellF.v);
+   What remains unproved: strings with function calls, where validity depends on the registry and on the derivation (a parenthesised argument is a
+   logical expression, so the syntax tree does not decide it): there the theorem is C03_complete_spelled, relative to the typed token grammar.  The check renders every generated valid query in every
    lexical form and requires it to compile to the generating structure. *)
 From JP Require Import Base.Json Spec.Abnf Spec.Rfc9535Grammar Model.PyFloat.
 
@@ -178,3 +180,21 @@ Print Assumptions C03_complete_abnf_no_filter.
 Example C03_abnf_no_filter_nonvacuous :
   let s := [36;32;46;97;32;91;39;98;39;32;44;32;48;93;32;46;46;42;32;91;32;49;32;58;32;58;45;49;32;93]%N in rfc_query s /\ ~ In 63%N s.
 Proof. intros s. split; [apply in_rfc_sound; vm_compute; reflexivity | vm_compute; intuition discriminate]. Qed.
+
+(* ... and with filter selectors.  The sub-language is the RFC grammar with the function-expr alternative removed from comparable and test-expr
+   (nf_grammar: every derivation of it is a derivation of the RFC grammar, C03_no_call_is_rfc); without function calls well-typedness is syntactic
+   (comparands are literals or singular queries by the grammar), so validity is the integer range alone. *)
+From JP Require Import Proofs.AbnfSpellF.
+Theorem C03_complete_abnf_no_call : forall s, derives nf_grammar (R r_jsonpath_query) s ->
+  exists B, forall cfg, min_idx cfg <= - B -> B <= max_idx cfg -> exists q, m_compile cfg s = Ok q.
+Proof. intros s H. destruct (abnf_no_call_compiles s H) as (B & K). exists B. intros cfg H1 H2. apply K. split; assumption. Qed.
+Print Assumptions C03_complete_abnf_no_call.
+Theorem C03_no_call_is_rfc : forall s, derives nf_grammar (R r_jsonpath_query) s -> rfc_query s.
+Proof. intros s H. apply dn_d. exact H. Qed.
+Print Assumptions C03_no_call_is_rfc.
+
+(* not vacuous:  $[?@.a == 'x' && !( @ .b[ 0 ] <1.5e-3|| $..c [?@>= -2 ])] ['k', 1:] *)
+Example C03_abnf_no_call_nonvacuous :
+  let s := [36;91;63;64;46;97;32;61;61;32;39;120;39;32;38;38;32;33;40;32;64;32;46;98;91;32;48;32;93;32;60;49;46;53;101;45;51;124;124;32;36;46;46;99;32;91;63;64;62;61;32;45;50;32;93;41;93;32;91;39;107;39;44;32;49;58;93]%N in
+  derives nf_grammar (R r_jsonpath_query) s.
+Proof. intros s. apply (accepts_sound nf_grammar (40 * length s + 200)). vm_compute. reflexivity. Qed.
